@@ -229,6 +229,22 @@ def extract(ctx):
     g.strings('newPacketCalls', _calls(f, '._handle_chan_info') + _calls(f, '._handle_chan_write') + _calls(f, '._handle_chan_read'))
     f = X.find(mem, '__init__')
     g.strings('memInitCalls', _calls(f, '.add_port_callback') + _calls(f, '.add_callback'))
+    # ---- the retransmission layer the chunk requests rely on (Crazyflie.send_packet / _check_for_answers) ----
+    cft = X.parse('cflib/crazyflie/__init__.py')
+    cfc = X.find(cft, 'Crazyflie')
+    try:
+        spl = X.find(cfc, '_send_packet_locked')
+    except ExtractError:
+        spl = X.find(cfc, 'send_packet')
+    g.strings('retryPatternAssigns', sorted(set(s_ for s_ in _assign_texts(spl) if s_.startswith('pattern = ') or s_.startswith('self._answer_patterns['))))
+    g.strings('retryArmTests', [ast.unparse(n.test) for n in ast.walk(spl) if isinstance(n, ast.If) and 'needs_resending' in ast.unparse(n.test)])
+    cfa = X.find(cfc, '_check_for_answers')
+    g.strings('retryMatchCompares', X.compares(cfa))
+    g.strings('retryMatchAssigns', [s_ for s_ in _assign_texts(cfa) if s_.split(' = ')[0] in ('data', 'match', 'longest_match')])
+    g.strings('retryMatchCalls', _calls(cfa, '.cancel') + [ast.unparse(n) for n in ast.walk(cfa) if isinstance(n, ast.Delete)])
+    g.strings('retryHooks', [c_ for c_ in _calls(X.find(cfc, '__init__'), '.add_callback') if '_check_for_answers' in c_])
+    g.strings('retryCancelAll', [ast.unparse(n) for n in X.find(cfc, '_cancel_answer_timers').body
+                                 if not (isinstance(n, ast.Expr) and isinstance(n.value, ast.Constant))])
     # ---- the MemoryTester client ----
     tt = X.parse('cflib/crazyflie/mem/memory_tester.py')
     f = X.find(tt, 'MemoryTester.new_data')
@@ -421,7 +437,7 @@ class RealMem:
                 if pk.port != 4:
                     s += '!port=%d' % pk.port
                 if tuple(expected_reply) != tuple(data[:5]) or resend or timeout != 1:
-                    s += '!exp=%r,%r,%r' % (tuple(expected_reply), resend, timeout)
+                    s += '!exp=%s,%d,%s' % ('.'.join(str(x) for x in expected_reply), bool(resend), timeout)
                 outs.append(s)
                 real.sent.append((pk.channel, data))
         self.sent = []
@@ -633,7 +649,9 @@ REQUIRED_THEOREMS = ['CfVerif.C06.' + t for t in (
     'deck_next_request_accepted', 'deck_next_write_accepted', 'deck_exactly_one_any_variant',
     'deck_records_follow_memory_any_variant', 'deck_next_request_accepted_any_variant', 'deck_next_write_accepted_any_variant', 'deck_query_failure_unreported_counterexample',
     'deck_write_failure_without_callback_counterexample', 'deck_overlapping_requests_counterexample',
-    'deck_read_record_must_always_be_cleared',
+    'deck_read_record_must_always_be_cleared', 'gen_expected_reply', 'retransmissions_only_of_outstanding_chunks',
+    'no_retransmission_pending_after_completion', 'device_answer_cancels_its_entry', 'retransmitted_write_is_idempotent',
+    'wrong_pattern_outlives_request_counterexample',
     'd9_lock_left_held', 'd9_wedged')]
 TRUSTED = ['harness/corr/c06.py extractor + correspondence (fake `cf` boundary object: add_port_callback, disconnected, send_packet with the '
            'size check of Crazyflie.send_packet; CheckedLock turns a blocking acquire of a held lock into `hang`; one MemProxy object per '
@@ -647,8 +665,10 @@ TRUSTED = ['harness/corr/c06.py extractor + correspondence (fake `cf` boundary o
 ASSUMPTIONS = ['A1 (freshness, data-exactness theorems only): no reply belonging to an already notified request is delivered later; duplicates, '
                'delays and reordering within a request are unrestricted. Necessary: Props stale_reply_counterexample (the protocol has no '
                'request identity). The bookkeeping theorems (lock, exactly-one notification, order, records) hold for ARBITRARY packets.',
-               'every packet handed to cf.send_packet reaches the device once and in order (link layer: C01/C10); request retransmission by '
-               'Crazyflie.send_packet (needs_resending links) is outside this model',
+               'every packet handed to cf.send_packet reaches the device once and in order (link layer: C01/C10) in the closed system Sys; '
+               'the retransmission layer of needs_resending links is modelled separately (Retry/rstep): its theorems assume that an error-status '
+               'reply names the outstanding chunk (Ev.ErrAtCur: deterministic device + A1); retransmissions of the outstanding chunk itself '
+               'are idempotent at the device (retransmitted_write_is_idempotent)',
                'requests are well-formed: memory id < 256, address range inside the 32-bit address space, data are bytes (otherwise struct.pack '
                'raises inside Memory.read/write: modelled, Props oob_write_raises, not covered by the property)',
                'one event (API call / packet handler / disconnect handler) is atomic: with the repaired lock discipline all accesses to '
@@ -1192,6 +1212,78 @@ def full_stack_scenarios(ctx, rng, n):
             return
 
 
+def resend_stack_scenarios(ctx, rng, n):
+    """Links that need resending (retry timers of Crazyflie.send_packet, virtual in the SyncSession): a multi-chunk write
+    completes; every retry timer still alive is fired; a later write that covers the range of the first one's last chunk
+    (different start address) completes; timers are fired again; the range is read back.  The device memory must be the
+    two writes applied in order, the read-back must return it, and no memory-port retransmission may be pending."""
+    from harness.sim import crazyflie_device as sim
+    for k in range(n):
+        size = 400
+        dev = sim.CrazyflieDevice(mems=[sim.Mem(0x18, data=bytes(rng.randrange(256) for _ in range(size))),
+                                        sim.Mem(0x18, data=bytes(rng.randrange(256) for _ in range(size)))])
+        s = sim.SyncSession(dev, needs_resending=True)
+        if not s.connect('connected') or s.run(max_steps=5000) != 'quiescent':
+            ctx.note('resend scenario: could not connect to the simulated device')
+            return
+        if rng.random() < 0.5:
+            s.cfg.policy = sim.RandomPolicy(rng, p_dup=0.4, p_delay=0.0, p_stale=0.0)
+        mem = s.cf.mem
+        got = {}
+        mem.mem_read_cb.add_callback(lambda m, a, d: got.setdefault(m.tag, []).append(('RO', a, bytes(d))))
+        mem.mem_read_failed_cb.add_callback(lambda m, a, d: got.setdefault(m.tag, []).append(('RF', a, bytes(d))))
+        mem.mem_write_cb.add_callback(lambda m, a: got.setdefault(m.tag, []).append(('WO', a)))
+        mem.mem_write_failed_cb.add_callback(lambda m, a: got.setdefault(m.tag, []).append(('WF', a)))
+
+        def fire_all(rounds=4):
+            fired = 0
+            for _ in range(rounds):
+                if not s.timers:
+                    break
+                s.fire_timer()
+                fired += 1
+                s.run(max_steps=300, idle=('workers', 'flush'))
+            return fired
+
+        def mem_patterns():
+            return sorted(p for p in s.cf._answer_patterns if p and (p[0] >> 4) & 0x0F == 4)
+        expect = bytearray(dev.mems[1].data)
+        len_a = rng.choice([26, 50, 51, 76])
+        addr_a = rng.randrange(0, 100)
+        data_a = bytes(rng.randrange(256) for _ in range(len_a))
+        last_chunk = addr_a + 25 * ((len_a - 1) // 25)
+        s.call(mem.write, MemProxy(1, 1), addr_a, bytearray(data_a))
+        s.run(max_steps=3000, idle=('workers', 'flush'))
+        expect[addr_a:addr_a + len_a] = data_a
+        pending_a = mem_patterns()
+        fired_a = fire_all()
+        # a later write covering the last chunk of the first one, from a different start address
+        addr_b = max(0, last_chunk - rng.randrange(1, 20))
+        len_b = (addr_a + len_a - addr_b) + rng.randrange(0, 10)
+        data_b = bytes(rng.randrange(256) for _ in range(len_b))
+        s.call(mem.write, MemProxy(1, 2), addr_b, bytearray(data_b))
+        s.run(max_steps=3000, idle=('workers', 'flush'))
+        expect[addr_b:addr_b + len_b] = data_b
+        fired_b = fire_all()
+        s.call(mem.read, MemProxy(1, 3), addr_b, len_b)
+        s.run(max_steps=3000, idle=('workers', 'flush'))
+        fire_all()
+        ctx.count('search:resend-scenarios')
+        image = bytes(dev.mems[1].data)
+        ok_notes = got.get(1) == [('WO', addr_a)] and got.get(2) == [('WO', addr_b)]
+        readback = got.get(3)
+        if image != bytes(expect) or not ok_notes or readback != [('RO', addr_b, bytes(data_b))] or pending_a or mem_patterns():
+            diff = [i for i in range(size) if image[i] != expect[i]]
+            ctx.witness('resend-link', 'on a link that needs resending a completed write does not leave the device memory equal to the written '
+                        'data (a chunk is retransmitted after its request completed) / a retransmission stays pending',
+                        {'needs_resending': True, 'write_a': {'addr': addr_a, 'data': data_a.hex()},
+                         'write_b': {'addr': addr_b, 'data': data_b.hex()}, 'timers_fired_after_a': fired_a, 'timers_fired_after_b': fired_b},
+                        device_differs_at=diff[:8], device=image[addr_b:addr_b + len_b].hex(), expected=bytes(expect[addr_b:addr_b + len_b]).hex(),
+                        notifications={t: [tuple(y.hex() if isinstance(y, bytes) else y for y in n_) for n_ in v] for t, v in got.items()},
+                        pending_patterns_after_first_write=[list(p) for p in pending_a], pending_patterns_at_end=[list(p) for p in mem_patterns()])
+            return
+
+
 def replay_d17(ctx):
     """witness of D17: zero-length write with a progress callback"""
     r = RealMem()
@@ -1644,6 +1736,13 @@ def search(ctx):
     d17 = replay_d17(ctx)
     if d9 or d17:
         return        # the remaining scenarios presuppose a subsystem that does not wedge
+    # links that need resending first: their failures are device-memory differences on the real Crazyflie stack
+    try:
+        resend_stack_scenarios(ctx, rng, 8 if ctx.tier == 'quick' else 200)
+    except Exception as e:
+        ctx.note('resend scenarios not run: %s: %s' % (type(e).__name__, e))
+    if any(w['key'] == 'resend-link' for w in ctx.witnesses):
+        return
     if systematic_search(ctx):
         return
     if client_search(ctx):
